@@ -9,6 +9,7 @@ package ristretto
 // The real ticker is disabled (period ~16 years); sweeps are invoked white-box while the applier is parked.
 
 import (
+	"runtime"
 	"fmt"
 	"sort"
 	"strings"
@@ -283,6 +284,31 @@ func vRunCacheCase(t *testing.T, cs *vCacheCase) []string {
 				res = helper(id, func() { c.Close() })
 				r.armedX = nil
 				closed = true
+			case "clearset":
+				// Clear during which the first OnExit issues a Set of another key (a Set that overlaps Clear: it must wait in
+				// the write buffer until Clear has restarted the applier)
+				k := r.key(vu(op[1]), vu(op[2]))
+				v := vu(op[3])
+				r.mu.Lock()
+				r.costs[v] = vi(op[4])
+				r.mu.Unlock()
+				explicit := int64(0)
+				if len(op) > 5 && op[5] == "x" {
+					explicit = vi(op[4]) // not gated: whoever may apply it now, does
+				}
+				r.armedX = func() {
+					ok := c.SetWithTTL(k, v, explicit, 0)
+					if explicit != 0 {
+						// give a (wrongly) running applier the time to apply the item before Clear goes on (the test's main
+						// goroutine is inside synctest.Wait, so yield instead of waiting)
+						for i := 0; i < 2000; i++ {
+							runtime.Gosched()
+						}
+					}
+					r.addCb(fmt.Sprintf("rwset:%d:%v", v, ok))
+				}
+				res = helper(id, func() { c.Clear() })
+				r.armedX = nil
 			case "rem":
 				res = fmt.Sprint(c.RemainingCost())
 			case "max":
